@@ -140,7 +140,7 @@ func init() {
 	register(&fw.Check{
 		ID:    "C06",
 		Level: "exploration",
-		Rule: "bases = the 40-string base menu and the slot product with <=t deviating slots; references = '', '#f' and '?q' for every f, q of Sigma^<=2, every scheme-less reference of (Sigma minus ':')^<=k, and the serialization of every parsed base (B x B). " +
+		Rule: "bases = the 40-string base menu and the slot product with <=2 deviating slots; references = '', '#f' and '?q' for every f, q of Sigma^<=2, every scheme-less reference of (Sigma minus ':')^<=k, and the serialization of every parsed base (B x B). " +
 			"Model-free relational oracles: url.ParseRef, Parser.ParseRef and (*Url).Parse agree on error-ness and all observables; Href(u) resolves to u against any base; '' gives the base without fragment; '#f' changes only the fragment and is the only relative reference an opaque-path base accepts; '?q' keeps scheme/credentials/host/port/path and drops the fragment; scheme-less references keep the base's scheme. " +
 			"non-trivial = (base, reference) pairs whose resolution succeeds",
 		Assume:  []string{"implementation against itself: no reference model involved"},
@@ -151,7 +151,7 @@ func init() {
 			t := 2
 			k := 2
 			if c.Thorough() {
-				t, k = 3, 3
+				k = 3
 			}
 			productDev(ProductSlots, t, func(parts []string) { bases = append(bases, strings.Join(parts, "")) })
 			var parsed []string
@@ -202,7 +202,7 @@ func init() {
 				enum.Raw(noHash, 2, func(s []byte) { run("shapes", b, "?"+string(s), "query") })
 				kk := k
 				if bi >= len(Bases) && !c.Thorough() {
-					kk = 1
+					kk = k - 1 // product bases: one symbol less than the menu bases in the quick tier
 				}
 				enum.Raw(noColon, kk, func(s []byte) { run("shapes", b, string(s), "schemeless") })
 			}
